@@ -94,6 +94,94 @@ CLAIMS = {
         "note": TRUST,
         "technique": "taint-style path routing over resolved callees with an external summary table; option liveness; sibling agreement of csv dialect/delimiter",
     },
+    "C04": {
+        "text": "Necessary conditions of grouped operations for all inputs: one key tuple drives sort/unique/select (ascending), the only "
+                "ordering primitive is the stable lexsort, index vectors are created on and applied to the frame they index with the "
+                "attach/sort ordering that makes split return original positions, group-aware protocol on the DataFrame side "
+                "(_group_ labels from the same indices, None -> default, helper columns removed), run scan of yield_groups, count on a "
+                "copy, order restoration in grouped modify, per-column NA masks as key components in unique. Not decided: summary values.",
+        "note": TRUST,
+        "technique": "statement-order and def-use rules (index-space discipline), must-facts for the protocol, effect analysis for count, guard engine",
+    },
+    "C07": {
+        "text": "Sibling agreement of the vector form and the group-wise form of all 14 helpers with each other and with a spec table "
+                "copied from the statement: minimum group size, under-threshold default, statistic and extra arguments, NA wiring "
+                "(handle_na before any length test; drop_na and is_na().any() of the aggregated column; all/any unfiltered), "
+                "identity-less statistics never bound with nrequired=0, protocol attributes set on every path, first/last = nth(0/-1). "
+                "Decides that the documented default/threshold/NA policy is wired identically in both forms, not the numbers.",
+        "note": TRUST,
+        "technique": "sibling feature-record extraction by ast dataflow + comparison against a spec table; CFG must-pass-through for protocol attributes",
+    },
+    "C08": {
+        "text": "ONLY dispatch wiring and twin-kernel structure (necessary conditions): (python, numba) pair order vs boolean indexing in "
+                "select, identical parameter lists, same group slices, same threshold/default/statistic per twin, identical group "
+                "scanners modulo yield/append, njit(cache=USE_NUMBA_CACHE) on every kernel, eligible dtype list, Numba NA test for "
+                "Float/NPDatetime, and purity of kernels w.r.t. the group slices (views of the frame's column) -- the part of the "
+                "order-of-use clause visible in code shape. NOT decided: numerical equality of NumPy vs Numba re-implementations and "
+                "JIT compile/cache history, which are runtime state no static argument here bounds.",
+        "note": TRUST + " The history clause proper (compilation order, on-disk cache) is outside what this technique can reach.",
+        "technique": "twin feature-record comparison over the ast, decorator/registry rules, syntactic purity rule for kernels",
+    },
+    "C09": {
+        "text": "Necessary conditions of rbind/select/unselect/rename/cbind/update/modify/colnames assignment for all inputs: two-phase "
+                "rename, rbind over every input in argument order with an order-preserving union of names and NA parts built from one "
+                "reference column at the lacking input's row count, name-value provenance in select/rename/unselect, first-wins / "
+                "replace semantics of cbind/update/modify, untouched columns yielded whole. Not decided: NumPy promotion.",
+        "note": TRUST,
+        "technique": "def-use and loop-structure rules per method (name/value provenance), sibling NA-pair rule, loop-carried hazard rule",
+    },
+    "C10": {
+        "text": "Consistency of the missing-value tables for every dtype kind: is_na, na_dtype and na_value are parsed into decision "
+                "lists and evaluated over nine kinds with a trusted predicate table encoding NumPy's scalar hierarchy (timedelta64 is an "
+                "integer subtype); value, holding dtype and detector must match each other and the statement; the NA substitution "
+                "predicate equals the inference-ignore predicate and is unconditional; consumers use is_na only. Not decided: which "
+                "dtype NumPy infers for a mixed list; equivalence laws of equal; round trips.",
+        "note": TRUST + " Predicate/kind table in sa/props/C10.py.",
+        "technique": "abstract evaluation of ordered decision lists over a finite kind lattice; predicate-equality of two comprehensions",
+    },
+    "C13": {
+        "text": "Boundary wiring of the converters: every exporter hands columns out only as Vector.tolist() output in colnames order; "
+                "importer twins from_arrow/from_pandas agree on mask source, object fallback, guarded upcast and masked NA store; NA "
+                "value/dtype pairing; None defaults when ListOfDicts/JSON records lack keys; and the contradicted-belief rule that a "
+                "dtype decision must not depend on one fixed element (reports the element-0 string sniffing in Vector._np_array as a "
+                "known finding). Not decided: the values and dtypes that come back.",
+        "note": TRUST,
+        "technique": "must-sanitise (tolist) taint rule, sibling feature records with branch facts, fixed-element-dependence rule",
+    },
+    "C15": {
+        "text": "Necessary conditions of the ListOfDicts list operations for all arguments: filter/filter_out complementary tests over one "
+                "pass, clamping and no possibly-zero negated slice bound in head/tail/sample, insert delivers its item on every CFG path, "
+                "caller-supplied dicts are coerced before reaching the as-is constructor, sort is multi-pass stable with reversed key "
+                "order / reverse=dir<0 / None-flag keys / validated directions, unique yields under a not-seen guard that records the key. "
+                "Not decided: full sequence equality with list operations.",
+        "note": TRUST,
+        "technique": "CFG path rule (must-yield), interval lower bounds for slice bounds, branch-fact sibling comparison, coercion-idiom typestate",
+    },
+    "C16": {
+        "text": "Necessary conditions of ListOfDicts joins/aggregate for all inputs: first-match lookup built over reversed(other), "
+                "inner/left twins strip right-hand key names and update only the left item with a fresh dict (no write effect on the "
+                "right operand), semi/anti complementary tests on one id set, full_join's reverse join gets role-swapped by-tuples and "
+                "unused right items are found by synthetic id, aggregate groups/buckets/sort use one key extraction. Not decided: which items match.",
+        "note": TRUST,
+        "technique": "def-use rules on lookup construction, sibling comparison, effect analysis (E3) for the right operand, operand-role rule for full_join",
+    },
+    "C18": {
+        "text": "Hand-assembled GeoJSON writer and reader: every dynamic text fragment written is json.dumps output, an indent or a "
+                "literal choice (injection-style taint rule); writer/reader member-name agreement incl. FEATURE_KEYS/FEATURE_TYPES and "
+                "'features'; all metadata members written, only 'features' removed on read; property columns = union of keys filled "
+                "with .get(key, None) from one feature sequence in file order; option liveness. Not decided: value fidelity.",
+        "note": TRUST,
+        "technique": "taint classification of f-string fragments over reaching definitions; writer/reader sibling agreement on literal member names",
+    },
+    "C19": {
+        "text": "Wiring of dt/regex: proxy registries bind each attribute to the module function of the same name with the vector at the "
+                "right parameter and are complete; each regex function calls re.<own name> identically in scalar and vector branch "
+                "over the non-missing positions; each dt extractor reads the datetime member of its own name (kind from the stdlib); "
+                "the _pull_* helpers share one skeleton; np.vectorize applications are dominated by the all-missing early return; early "
+                "returns convert like the final return. Not decided: calendar arithmetic, strftime/regex semantics.",
+        "note": TRUST,
+        "technique": "registry/forwarding rules, sibling skeleton comparison, guard-dominates-partial-operation, must-convert-on-every-return rule",
+    },
 }
 
 PENDING = "check under construction in this session (static rule designed in DESIGN.md section 5, not yet implemented)"
